@@ -142,7 +142,12 @@ class Serializable(object):  # pylint: disable=too-few-public-methods
             ])
         elif hasattr(obj, '__dict__'):
             result = Serializable._json_traverse(obj.__dict__, result_func)
-        elif isinstance(obj, (list, tuple, frozenset, set)):
+        elif isinstance(obj, (frozenset, set)):
+            result = sorted(
+                [Serializable._json_traverse(item, result_func) for item in obj],
+                key=lambda item: json.dumps(item, sort_keys=True)
+            )
+        elif isinstance(obj, (list, tuple)):
             result = [Serializable._json_traverse(item, result_func) for item in obj]
         else:
             result = result_func(obj)
@@ -180,7 +185,7 @@ class Serializable(object):  # pylint: disable=too-few-public-methods
         if hasattr(obj, '_asdict'):
             dict_value = obj._asdict()
             if not isinstance(dict_value, dict):
-                return False, dict_value
+                return cls._markdown_result(dict_value, level)
 
             dict_value = Serializable._filter_out_non_human_friendly(obj, dict_value, human_friendly_only=True)
         else:
@@ -207,6 +212,9 @@ class Serializable(object):  # pylint: disable=too-few-public-methods
             return False, '-'
 
         indent = Serializable._markdown_indent_from_level(level)
+
+        if isinstance(obj, (frozenset, set)):
+            obj = sorted(obj, key=lambda item: cls._markdown_result(item, level + 1)[1])
 
         result = ''
         for index, item in enumerate(obj):
